@@ -262,6 +262,15 @@ def ops_for(pid):
         return {'name': 'window(n=numpy.int64(%d)).x.%s [DatetimeIndex]' % (n, name), 'kind': P, 'index': 'time',
                 'build': lambda s, p: getattr(s.window(n=np.int64(n)).x, name)(), 'oracle': lambda d, p: getattr(d.x.iloc[-n:], name)()}
 
+    def gb_derived(name):
+        # the grouped frame is derived from the source BEFORE the grouper expression is built: per batch the frame reaches the
+        # pairing node first, its grouper second -- they must still be paired batch by batch
+        def build(s, p):
+            pos = s[['x', 'y', 'k']]
+            return getattr(pos.groupby(s.k).x, name)()
+        return {'name': 'derived frame .groupby(sdf.k).x.%s' % name, 'kind': P, 'index': 'int',
+                'build': build, 'oracle': lambda d, p: getattr(d.groupby(d.k).x, name)()}
+
     def gbd(name, ddof):
         return {'name': "groupby('k').x.%s(ddof=%d)" % (name, ddof), 'kind': P, 'index': 'int',
                 'build': lambda s, p: getattr(s.groupby('k').x, name)(ddof=ddof),
@@ -401,7 +410,7 @@ def ops_for(pid):
     if pid == 'C06':
         return [red('sum'), red('count'), red('mean'), red('size'), red('sum', True), red('mean', True), red('count', True),
                 gb('sum'), gb('count'), gb('size'), gb('mean'), gb('var'), gb('std'), gb('sum', True), gb('mean', True),
-                gbd('var', 0), gbd('std', 0), vc(), gb_intlabels('sum'), gb_intlabels('mean'), gb_cat('sum'), gb_cat('mean', True),
+                gbd('var', 0), gbd('std', 0), vc(), gb_intlabels('sum'), gb_intlabels('mean'), gb_cat('sum'), gb_cat('mean', True), gb_derived('sum'),
                 expanding('sum'), expanding('mean'), expanding('count'), expanding_frame('sum'), expanding_first('var')]
     if pid == 'C07':
         return [win('sum', 2), win('mean', 3), win('count', 1), win('var', 3), win('std', 2), win('size', 2),
